@@ -59,7 +59,9 @@ def a_shape(run, pred, tries=4):
         except Exception:
             continue
         if c:
-            return s, run.rnd.choice(c)
+            sh = run.rnd.choice(c)
+            sat_select(run, sh._element)
+            return s, sh
     raise Rejected()
 
 
@@ -83,6 +85,7 @@ def a_text_frame(run):
         s, sh = a_shape(run, lambda x: getattr(x, "has_table", False))
         t = sh.table
         cell = t.cell(run.rnd.randrange(len(t.rows)), run.rnd.randrange(len(t.columns)))
+        sat_select(run, cell._tc)
         return cell.text_frame, "cell"
     s, sh = a_shape(run, lambda x: getattr(x, "has_text_frame", False))
     return sh.text_frame, "shape"
@@ -104,7 +107,21 @@ def a_run(run):
 
 def a_chart(run):
     s, sh = a_shape(run, lambda x: getattr(x, "has_chart", False))
+    sat_select(run, sh.chart.part._element)
     return sh.chart
+
+
+def sat_select(run, el):
+    """Profile 'sat' only: the element an op has just chosen to work on gets schema-permitted siblings (op_saturate's
+    treatment, aimed at the chosen subtree) right before the API call, so the call inserts next to children python-pptx
+    itself never writes.  Done with lxml, baselines re-taken: never attributed to python-pptx."""
+    if run.profile != "sat" or run.rnd.random() < 0.35:
+        return
+    from pptx.oxml.xmlchemy import BaseOxmlElement
+
+    sub = [e for e in el.iter() if isinstance(e, BaseOxmlElement) and e.tag not in SAT_SKIP_PARENTS]
+    _saturate_elements(run, run.rnd.sample(sub, min(len(sub), 80)))
+    run.acc.count("saturate:aimed_at_the_target_of_the_next_call")
 
 
 def remember_shape(run, slide, shape):
@@ -531,19 +548,23 @@ def op_paragraph_fmt(run):
 
     r = run.rnd
     p, where = a_paragraph(run)
-    k = r.choice(["alignment", "level", "line_spacing", "space_before", "space_after", "level_bad"])
-    if k == "alignment":
-        p.alignment = r.choice(list(PP_ALIGN) + [None])
-    elif k == "level":
-        p.level = r.choice([0, 1, 8])
-    elif k == "level_bad":
-        p.level = r.choice([-1, 9])
-    elif k == "line_spacing":
-        p.line_spacing = r.choice([1.0, 0.5, 2.25, Pt(14), None, 132.0, -2.0, 133.0, Pt(-3)])
-    elif k == "space_before":
-        p.space_before = r.choice([Pt(0), Pt(6), None, Pt(1584), Pt(-1), Pt(1585)])
-    else:
-        p.space_after = r.choice([Pt(0), Pt(12.5), None, Pt(-1)])
+    kinds = r.sample(["alignment", "level", "line_spacing", "space_before", "space_after", "level_bad"], r.choice([1, 1, 2, 3]))
+    for k in kinds:  # several settings of one paragraph, in any order (the usual way paragraph formatting is applied)
+        if k == "alignment":
+            p.alignment = r.choice(list(PP_ALIGN) + [None])
+        elif k == "level":
+            p.level = r.choice([0, 1, 8])
+        elif k == "level_bad":
+            if k != kinds[-1]:
+                continue  # the rejected call ends the op: only as the last one
+            p.level = r.choice([-1, 9])
+        elif k == "line_spacing":
+            p.line_spacing = r.choice([1.0, 0.5, 2.25, Pt(14), None, 132.0, -2.0, 133.0, Pt(-3)])
+        elif k == "space_before":
+            p.space_before = r.choice([Pt(0), Pt(6), None, Pt(1584), Pt(-1), Pt(1585)])
+        else:
+            p.space_after = r.choice([Pt(0), Pt(12.5), None, Pt(-1)])
+    k = "+".join(kinds)
     return "%s/%s" % (k, where)
 
 
@@ -1059,9 +1080,17 @@ PROFILES = {
         "read_slides": 2, "save_stream": 4, "ph_insert": 2, "hyperlink_share": 4, "connect": 3,
     },
 }
-PROFILES["mixed"] = {k: 3 for k in ALL_OPS}
+PROFILES["mixed"] = {k: 3 for k in ALL_OPS if k != "saturate"}
 PROFILES["mixed"].update({"save_stream": 2, "save_path": 1, "reopen": 1, "traverse": 1})
 
+
+# C10 online: XML mutators working next to schema-permitted siblings python-pptx never writes
+PROFILES["sat"] = {
+    "add_slide": 2, "add_shape": 3, "add_textbox": 3, "add_picture": 3, "add_connector": 1, "connect": 1, "add_group": 1, "add_freeform": 1, "add_chart": 4,
+    "add_table": 3, "ph_insert": 2, "text_assign": 4, "text_struct": 5, "font": 8, "paragraph_fmt": 10, "textframe_fmt": 6, "run_hyperlink": 3,
+    "fill": 8, "line": 6, "shadow": 3, "click_action": 3, "table": 6, "picture": 6, "autoshape": 6, "chart_fmt": 22, "chart_replace": 2, "notes": 2,
+    "saturate": 8,
+}
 
 CREATORS = {
     "chart_fmt": ["add_chart"], "chart_replace": ["add_chart"], "table": ["add_table"], "picture": ["add_picture"],
@@ -1076,6 +1105,91 @@ def creator_for(name, rnd):
 def profile_table(name):
     w = PROFILES[name]
     return [(w[k], k, ALL_OPS[k][0], ALL_OPS[k][1] or (Rejected,)) for k in sorted(w)]
+
+
+# ---------------------------------------------------------------------------- PowerPoint-only siblings, mid-history
+SAT_SKIP_PARENTS = {"{%s}%s" % (P, n) for n in ("spTree", "grpSp", "sld", "sldLayout", "sldMaster", "notes", "cSld", "presentation")}
+
+
+def _root(el):
+    while el.getparent() is not None:
+        el = el.getparent()
+    return el
+
+
+def _saturate_elements(run, elements):
+    from collections import Counter
+
+    from lxml import etree
+    from pptx.oxml import parse_xml
+    from pptx.oxml.xmlchemy import BaseOxmlElement
+
+    from . import instgen, xsdkit
+    from .histories import part_hash, xml_parts
+
+    r = run.rnd
+    n_add = n_swap = 0
+    p_add, p_swap = r.choice([0.5, 0.8, 0.95]), r.choice([0.2, 0.5])
+    roots = {id(_root(el)) for el in elements}
+    involved = [part for part in xml_parts(run.prs) if id(part._element) in roots]
+    pre = {part: xsdkit.validate_part(etree.tostring(part._element))[0] for part in involved}
+    queue = list(elements)
+    for depth in (0, 1):  # children just added are treated once themselves (an a:pPr put into an a:p gets its own children)
+        fresh = []
+        for el in queue:
+            if el.getparent() is None and id(el) not in roots:
+                continue  # swapped away by an earlier step
+            for how, tag in instgen.saturate(el, r, parser_el=parse_xml, p_add=p_add, p_swap=p_swap):
+                n_add += how == "add"
+                n_swap += how == "swap"
+                fresh += [c for c in el.findall(tag) if isinstance(c, BaseOxmlElement)]
+        queue = fresh[:200]
+    run.acc.count("saturate:children_added", n_add)
+    run.acc.count("saturate:choice_members_swapped", n_swap)
+    for part in involved:
+        post = xsdkit.validate_part(etree.tostring(part._element))[0]
+        if post is not None and pre[part] is not None and post - pre[part]:
+            own = post - pre[part]
+            run.acc.count("saturate:own_insertions_the_real_schema_rejects", sum(own.values()))  # workload defect, never a finding
+            for m in list(own)[:2]:
+                run.acc.classes["saturate-reject:" + m[:110]] = run.acc.classes.get("saturate-reject:" + m[:110], 0) + 1
+        run.val_baseline[part] = post
+        run.hashes[part] = part_hash(part)
+    return n_add, n_swap
+
+
+def op_saturate(run):
+    """NOT an API call: with lxml, give a sample of the deck's elements (those python-pptx has a class for) the optional
+    children their schema type permits and they lack - minimal schema-valid instances from vlib/instgen.py, each placed
+    where the order schema accepts it; a member of a choice group may be swapped for another.  Later API ops then insert
+    next to siblings python-pptx itself never writes.  Baselines (validity, hashes) are re-taken: nothing done here is
+    ever attributed to python-pptx."""
+    from collections import Counter
+
+    from lxml import etree
+    from pptx.oxml import parse_xml
+    from pptx.oxml.xmlchemy import BaseOxmlElement
+
+    from . import instgen, xsdkit
+    from .histories import part_hash, xml_parts
+
+    r = run.rnd
+    parts = xml_parts(run.prs)
+    cands = []
+    for part in parts:
+        root = part._element
+        if etree.QName(root).namespace not in (xsdkit.NS["p"], xsdkit.NS["c"]):
+            continue
+        if root.tag in ("{%s}sldMaster" % P, "{%s}sldLayout" % P, "{%s}notesMaster" % P, "{%s}presentation" % P) and r.random() < 0.8:
+            continue
+        cands += [el for el in root.iter() if isinstance(el, BaseOxmlElement) and el.tag not in SAT_SKIP_PARENTS]
+    if not cands:
+        raise Rejected()
+    n_add, n_swap = _saturate_elements(run, r.sample(cands, min(len(cands), r.choice([5, 15, 40, 120]))))
+    return "+%d children, %d choice swaps" % (n_add, n_swap)
+
+
+ALL_OPS["saturate"] = (op_saturate, NONE)
 
 
 # ---------------------------------------------------------------------------- PowerPoint-only siblings (C03)
